@@ -111,6 +111,15 @@ class C20:
                                        {"op": "handle", "n": "c", "layer": missing_layer("update")}])):
             h = C02P.to_harness({"id": 0, "names": NAMES, "ops": ops})
             cases.append({"kind": 2, "names": h["names"], "ops": h["ops"], "probes": PROBES, "cmp_failed": True})
+        def odd_layer():
+            ins = []
+            for p in ["web", "worker", "release", "clock", "console", "jobs/nightly", "a b"]:
+                ins.append({"s": {"k": "process", "p": bl(p)}, "b": "override", "n": bl("X"), "v": bl(p)})
+            res = {"md": {"version": "1"}, "env": ins, "execd": [], "sboms": [], "files": []}
+            return {"types": {"launch": True, "build": False, "cache": True}, "m": "G", "strategy": "update", "migrate": {"d": "recreate"},
+                    "create": res, "update": res}
+        h = C02P.to_harness({"id": 0, "names": NAMES, "ops": [{"op": "handle", "n": "c", "layer": odd_layer()}]})
+        cases.append({"kind": 2, "names": h["names"], "ops": h["ops"], "probes": PROBES, "cmp_failed": True})
         req = {"op": "req", "n": "a", "q": {"kind": "cached", "launch": True, "build": False, "m": "G",
                                             "inv": {"d": "delete", "cause": 1}, "res": {"d": "keep", "cause": 2}},
                "writes": [{"w": "file", "rel": [bl("bin"), bl("tool")], "data": bl("t")}, {"w": "execd", "progs": [[bl("gone"), None]]}]}
